@@ -38,7 +38,11 @@ Inductive tx_action :=
 Inductive create_fail :=
 | CFTableExists      (* TableExistsError: somebody else initialised the table; v0 stays (it was never named) *)
 | CFDiscardRaise     (* the write is guaranteed invisible: the unpublished v0 is removed, the error propagates *)
-| CFKeepRaise.       (* the write may have taken effect: v0 is kept, the error propagates *)
+| CFKeepRaise        (* the write may have taken effect: v0 is kept, the error propagates *)
+| CFTableExistsDiscardForeign.
+                     (* TableExistsError; before it is raised the table now in effect is resolved again and, when it
+                        is verifiably ANOTHER table (different uuid), the v0 written here is removed; when it is this
+                        one (a re-sent create answered 412, a commit already built on this v0) the v0 stays *)
 
 (* how the commit-point write can fail *)
 Inductive flip_err :=
